@@ -50,7 +50,8 @@ ASSUMPTIONS = [
     "whichever neighbouring step the difference is taken relative to; grids with slow drift, where 'jitter by more "
     "than 1 %' is ambiguous, are not enumerated",
     "steps whose stencil touches sub-threshold (<1 %) jitter are not constrained in value (only linearity/start)",
-    "large lengths (200, 2000) restrict jitter positions to the first/last 12 steps plus a lattice for 2000",
+    "length 2000 restricts jitter positions to the first/last 8 steps and the quarter points, and uses a reduced "
+    "amplitude set; length 200 restricts jitter pairs to the first 12 / last 20 positions",
 ]
 REQUIRED_CATEGORIES = [
     "stencil_pairs", "stencil_monomial_moments", "steps_must_trap_jitter", "steps_must_trap_ends",
@@ -179,21 +180,21 @@ def positions(nt, tier):
     allp = list(range(1, nt))
     if nt <= 200:
         return allp
-    edge = set(allp[:12]) | set(allp[-12:]) | set(range(250, nt - 1, 250)) | {nt // 2}
-    return sorted(edge)
+    return sorted(set(allp[:8]) | set(allp[-8:]) | {nt // 4, nt // 2, 3 * nt // 4})
 
 
 def grid_specs(nt, tier):
     """Every grid is a dict (json-able); factor[k] multiplies the base step k (k = 1..nt-1)."""
     specs = [{"family": "uniform"}]
     pos = positions(nt, tier)
+    big = nt > 200
     if nt >= 3:
         for j in pos:
-            for amp in (0.005, 0.011, -0.011, 0.02, -0.02, 0.5, 9.0):
+            for amp in ((0.005, 0.011, -0.02, 9.0) if big else (0.005, 0.011, -0.011, 0.02, -0.02, 0.5, 9.0)):
                 specs.append({"family": "single", "pos": j, "amp": amp})
-        pair_pos = pos if nt <= 20 else [j for j in pos if j <= 12 or j >= nt - 20 or nt > 200]
+        pair_pos = pos if (nt <= 20 or big) else [j for j in pos if j <= 12 or j >= nt - 20]
         for j in pair_pos:
-            for g in range(1, 7):
+            for g in range(1, 4 if big else 7):
                 if j + g <= nt - 1:
                     for amp in (0.02, 0.5):
                         specs.append({"family": "pair", "pos": j, "gap": g, "amp": amp})
@@ -203,7 +204,7 @@ def grid_specs(nt, tier):
                     specs.append({"family": "periodic", "period": period, "phase": phase, "amp": amp})
         for j in pos:
             if j >= 2:
-                for amp in (0.02, 0.5):
+                for amp in ((0.5,) if big else (0.02, 0.5)):
                     specs.append({"family": "change", "pos": j, "amp": amp})
         specs.append({"family": "periodic_sub", "period": 2, "phase": 0, "amp": 0.005})
     return specs
